@@ -456,6 +456,40 @@ static void mode_bin(vf::Ctx& c)
 	write_binary(c, path, data, how);
 	check_binary(c, path, data, true);
 	if (lowFd && savedStdin >= 0) { dup2(savedStdin, 0); close(savedStdin); }
+	// an existing file reopened for reading and writing: four bytes written at a position land there and nowhere else
+	if (n >= 4 && c.rng.chance(0.15)) {
+		size_t pos = c.rng.below((uint32_t)(n - 3));
+		c.op(vf::fmt("open(RW); seek(%zu); write 4 bytes", pos));
+		{
+			File f(S(path), File::RW);
+			if (f) { f.seek((Long)pos); f.write("\x11\x22\x33\x44", 4); }
+		}
+		Bytes want = data, now;
+		want[pos] = 0x11; want[pos + 1] = 0x22; want[pos + 2] = 0x33; want[pos + 3] = 0x44;
+		if (!posix_read(path, now)) c.fail("rw.file-lost", "");
+		else same(c, "rw.overwrite-in-place", now, want);
+		check_size(c, path, want);
+		c.count("bin.rw_overwrites");
+	}
+	// the same array streamed twice through a big-endian File: both copies are big-endian and the caller's array is unchanged
+	if (c.rng.chance(0.1)) {
+		std::string p2 = sc.file("arr.bin");
+		int m = c.rng.range(1, 300);
+		Array<int> a(m);
+		Bytes want;
+		for (int i = 0; i < m; i++) { unsigned v = (unsigned)c.rng.next(); a[i] = (int)v; }
+		for (int rep = 0; rep < 2; rep++) for (int i = 0; i < m; i++) { unsigned v = (unsigned)a[i]; want += (char)(v >> 24); want += (char)(v >> 16); want += (char)(v >> 8); want += (char)v; }
+		c.op(vf::fmt("File(WRITE, big-endian) << Array<int>[%d] << the same array", m));
+		{
+			File f(S(p2), File::WRITE);
+			f.setEndian(ENDIAN_BIG);
+			f << a << a;
+		}
+		Bytes now;
+		if (!posix_read(p2, now)) c.fail("stream.file-lost", "");
+		else same(c, "stream.array-twice", now, want);
+		c.count("bin.big_endian_array_streamed_twice");
+	}
 	c.distinct(vf::mix(vf::fnv(data), vf::fnv(how)));
 	if (c.want_sample() && c.idx % 97 == 3) c.sample(vf::fmt("%zu bytes (%s...) via %s; read back with open/read, size(), content(), firstBytes(k), read()", n, vf::hex(data.data(), n < 12 ? n : 12).c_str(), how.c_str()));
 }
